@@ -508,4 +508,108 @@ theorem Inv.give {c : Cfg} {s : State} (h : Inv c s) {t u id : Nat}
     · right; left; simp only; grind [upd]
     · exact Or.inr (Or.inr h1)
 
+theorem TInv_allocLoop {c : Cfg} {s : State} (t : Nat) : TInv c s t (allocLoop c s.headV s.headG) := by
+  unfold allocLoop
+  split
+  · trivial
+  · rename_i hne; exact ⟨hne, Nat.le_refl _, fun _ _ => rfl⟩
+
+theorem allocLoop_transit (c : Cfg) (a b : Nat) : (allocLoop c a b).transit = none := by
+  unfold allocLoop; split <;> rfl
+theorem allocLoop_fresh (c : Cfg) (a b : Nat) : (allocLoop c a b).fresh = none := by
+  unfold allocLoop; split <;> rfl
+
+/-- every atomic action preserves the invariant (given NoWrap before and Cap after) -/
+theorem Inv.act {c : Cfg} {s s' : State} {t : Nat} {sp : Bool} {l : Label} (h : Inv c s)
+    (hnw : NoWrap c s) (hst : stepThread c s t sp = some (s', l)) (hcap : Cap c s') : Inv c s' := by
+  unfold stepThread at hst
+  cases hpc : s.pc t <;> rw [hpc] at hst <;> simp only at hst
+  case idle => simp at hst
+  case a0 =>
+    simp only [Option.some.injEq, Prod.mk.injEq] at hst
+    rw [← hst.1]
+    exact h.setPc t _ (TInv_allocLoop t) (by rw [allocLoop_transit, hpc]; rfl)
+      (by rw [allocLoop_fresh, hpc]; rfl) s.result s.bound
+  case a1 cv cg =>
+    simp only [Option.some.injEq, Prod.mk.injEq] at hst
+    rw [← hst.1]
+    have ht := h.thr t; rw [hpc] at ht
+    exact h.setPc t _ (show TInv c s t (.a2 cv cg (s.next cv)) from ⟨ht.1, ht.2.1, ht.2.2, fun _ _ => rfl⟩) (by simp [hpc, Pc.transit])
+      (by simp [hpc, Pc.fresh]) s.result s.bound
+  case a2 cv cg nr =>
+    split at hst
+    · rename_i hhit
+      simp only [Option.some.injEq, Prod.mk.injEq] at hst
+      rw [← hst.1]
+      exact h.pop hnw hpc hhit.1.1 hhit.1.2
+    · simp only [Option.some.injEq, Prod.mk.injEq] at hst
+      rw [← hst.1]
+      exact h.setPc t _ (TInv_allocLoop t) (by rw [allocLoop_transit, hpc]; rfl)
+        (by rw [allocLoop_fresh, hpc]; rfl) s.result s.bound
+  case a3 cv cg =>
+    simp only [Option.some.injEq, Prod.mk.injEq] at hst
+    rw [← hst.1]
+    exact h.storeFlag (Or.inl ⟨cg, hpc⟩) _
+  case an =>
+    simp only [Option.some.injEq, Prod.mk.injEq] at hst
+    rw [← hst.1] at hcap ⊢
+    exact h.mint hpc hcap
+  case an2 v =>
+    simp only [Option.some.injEq, Prod.mk.injEq] at hst
+    rw [← hst.1]
+    exact h.storeFlag (Or.inr hpc) _
+  case d0 id =>
+    simp only [Option.some.injEq, Prod.mk.injEq] at hst
+    rw [← hst.1]
+    have ht := h.thr t; rw [hpc] at ht
+    exact h.setPc t _ (show TInv c s t (.d1 id s.headV s.headG) from ht) (by simp [hpc, Pc.transit]) (by simp [hpc, Pc.fresh]) s.result s.bound
+  case d1 id cv cg =>
+    simp only [Option.some.injEq, Prod.mk.injEq] at hst
+    rw [← hst.1]
+    exact h.link hpc
+  case d2 id cv cg =>
+    split at hst
+    · rename_i hhit
+      simp only [Option.some.injEq, Prod.mk.injEq] at hst
+      rw [← hst.1]
+      exact h.push hpc hhit.1.1
+    · simp only [Option.some.injEq, Prod.mk.injEq] at hst
+      rw [← hst.1]
+      have ht := h.thr t; rw [hpc] at ht
+      exact h.setPc t _ (show TInv c s t (.d1 id s.headV s.headG) from ⟨ht.1, ht.2.1, ht.2.2.1⟩) (by simp [hpc, Pc.transit]) (by simp [hpc, Pc.fresh]) s.result s.bound
+  case e0 =>
+    simp only [Option.some.injEq, Prod.mk.injEq] at hst
+    rw [← hst.1]
+    exact h.setPc t .idle trivial (by simp [hpc, Pc.transit]) (by simp [hpc, Pc.fresh]) s.result _
+  case fe0 =>
+    simp only [Option.some.injEq, Prod.mk.injEq] at hst
+    rw [← hst.1]
+    exact h.setPc t .idle trivial (by simp [hpc, Pc.transit]) (by simp [hpc, Pc.fresh]) s.result _
+
+theorem Inv.step {c : Cfg} {s s' : State} (h : Inv c s) (hnw : NoWrap c s) (hst : Step c s s')
+    (hcap : Cap c s') : Inv c s' := by
+  cases hst with
+  | act t sp _ l hs => exact h.act hnw hs hcap
+  | alloc t hpc =>
+    exact h.setPc t .a0 trivial (by simp [hpc, Pc.transit]) (by simp [hpc, Pc.fresh]) s.result s.bound
+  | dealloc t id hpc hown => exact h.callDealloc hpc hown
+  | endc t hpc =>
+    exact h.setPc t .e0 trivial (by simp [hpc, Pc.transit]) (by simp [hpc, Pc.fresh]) s.result s.bound
+  | foreach t hpc =>
+    exact h.setPc t .fe0 trivial (by simp [hpc, Pc.transit]) (by simp [hpc, Pc.fresh]) s.result s.bound
+  | give t u id hown hfr => exact h.give hown hfr
+
+/-- hypotheses on an execution: every state satisfies NoWrap and Cap -/
+def Good (c : Cfg) (s : State) : Prop := NoWrap c s ∧ Cap c s
+
+theorem good_init (c : Cfg) : Good c (State.init c) :=
+  ⟨by intro t cv cg nr h; simp [State.init] at h, Nat.zero_le _⟩
+
+theorem reach_inv {c : Cfg} {s : State}
+    (hr : Reachable (· = State.init c) (StepR c (Good c)) s) : Inv c s ∧ Good c s := by
+  refine Reachable.invariant (fun s => Inv c s ∧ Good c s) ?_ ?_ s hr
+  · intro s hs; subst hs; exact ⟨Inv.init c, good_init c⟩
+  · intro s s' ⟨hi, hg⟩ ⟨hst, hg'⟩
+    exact ⟨hi.step hg.1 hst hg'.2, hg'⟩
+
 end Babylon.IdAlloc
